@@ -271,11 +271,11 @@ func c30(r *engine.Run) {
 	nontrivial := engine.NewSet()
 	var evals int64
 
-	// (D) dangerous inputs first, in the background: one worker each, at most 8 at a time
+	// (D) dangerous inputs first, in the background: one worker each, at most 16 at a time
 	dangerous := c30Dangerous(r.Thorough())
 	deadline := time.Duration(r.Pick(60, 300)) * time.Second
 	var wg sync.WaitGroup
-	sem := make(chan struct{}, 8)
+	sem := make(chan struct{}, 16)
 	dres := make([]string, len(dangerous))
 	for i, d := range dangerous {
 		wg.Add(1)
